@@ -510,8 +510,11 @@ def assemble(unit: dict, scratch: str, passname="A") -> Assembled:
         p = os.path.join(unit["dir"], sf)
         specs.update(parse_vspec(open(p).read(), p))
     fn_by_key = {f["key"]: f for f in tr["fns"]}
-    for k in specs:
+    for k in list(specs):
         if k not in fn_by_key:
+            if unit.get("ignore_missing_contracts"):
+                del specs[k]     # a shared contract file may cover functions this unit does not select
+                continue
             raise Undecided(f"lost anchor: contract for {k} but no such function extracted")
     parts = [PRELUDE_HEAD, "verus! {\n"]
     for m in unit.get("model", ["core"]):
@@ -528,9 +531,14 @@ def assemble(unit: dict, scratch: str, passname="A") -> Assembled:
         parts.append(f"pub const {c['name']}: {c['ty']} = {c['expr']};")
     parts.append("// ==== data types generated from the source items (T7) ====")
     seen_t = set()
+    conv = {ti["type"] for ti in tr.get("trait_impls", []) if ti["trait"] == "TryFromVal"}
+    errs = {ti["type"] for ti in tr.get("trait_impls", []) if ti["trait"] == "TryFrom" or ti["trait"] == "From"}
     for t in tr["types"]:
         if t["name"] in skip_types or t["name"] in seen_t:
             continue
+        if not t["attr"] and t["name"] in conv:
+            # macro-expanded source: the attribute is gone but the SDK conversions it generated are there
+            t["attr"] = "contracterror" if (t["kind"] == "enum" and all(v["discr"] is not None for v in t["variants"]) and t["name"].endswith("Error")) else "contracttype"
         if "*" not in want_types and t["name"] not in want_types:
             continue
         seen_t.add(t["name"])
